@@ -4,8 +4,10 @@ given checks against it.  usage: tools/seed_import.py <ID> <n> <prop> [<prop>...
 import json, os, shutil, subprocess, sys
 ROOT = os.path.join(os.path.dirname(os.path.abspath(__file__)), "..")
 pid, n, props = sys.argv[1], sys.argv[2], sys.argv[3:]
-src = "/tmp/seedout/%s/change%s" % (pid, n)
-dst = os.path.join(ROOT, "seeded", "%s-%s" % (pid, n))
+base = os.environ.get("SEED_SRC", "/tmp/seedout")
+prefix = os.environ.get("SEED_PREFIX", "")
+src = "%s/%s/change%s" % (base, pid, n)
+dst = os.path.join(ROOT, "seeded", "%s%s-%s" % (prefix, pid, n))
 if os.path.exists(dst):
     shutil.rmtree(dst)
 shutil.copytree(src, dst)
